@@ -202,6 +202,7 @@ func registerIntrinsics(e *Exec) {
 
 	registerLibStubs(e)
 	registerPValue(e)
+	registerRapid(e)
 	registerPValueHarness(e)
 }
 
